@@ -91,6 +91,7 @@ class World:
         self.actor = None
         self.undeliverable = []
         self.nsteps = 0
+        self.tickn = {}  # computation -> number of tick events executed (periodic actions have no cycle counter)
         self.globals = {}
 
     # ---- called by Port / Hook during an event
@@ -213,6 +214,7 @@ def apply_event(world, event, spec, controller):
         elif kind == "tick":
             _, n, meth, _, _ = event
             world.actor = n
+            world.tickn[n] = world.tickn.get(n, 0) + 1
             comp = world.comps[n]
             if not comp.is_paused:  # body of add_periodic_action.<locals>.call_action
                 getattr(comp, meth)()
@@ -262,7 +264,7 @@ class Explorer:
             tuple(sorted((k, tuple(c(m) for m in q)) for k, q in world.chans.items())),
             tuple(sorted((k, tuple((s, c(m)) for s, m in q)) for k, q in world.front.items() if q)),
             tuple(sorted(world.started)),
-            tuple(world.ticks),
+            tuple(world.ticks), tuple(sorted(world.tickn.items())),
             c(world.exception),
             tuple(c(u) for u in world.undeliverable),
             c(self.spec.canon_extra(world)),
